@@ -45,6 +45,10 @@ impl<R: RealNumberInternalTrait> Display for Number<R> {
         match self {
             Number::Integer(n) => write!(f, "{}", n),
             Number::Real(n) => write!(f, "{:?}", n),
+            // the reader takes a sign only in front of the numerator
+            Number::Rational(a, b) if *b < 0 => {
+                write!(f, "{}/{}", -i64::from(*a), -i64::from(*b))
+            }
             Number::Rational(a, b) => write!(f, "{}/{}", a, b),
         }
     }
